@@ -360,6 +360,41 @@ func c04Obligs(tier string) []Oblig {
 			obs = append(obs, Oblig{Harness: "H_c04p", Args: []int{k1, k2, 2}})
 		}
 	}
+	obs = append(obs, c04wObligs(tier)...)
+	return obs
+}
+
+// c04wObligs: flag subsets x boundary widths x boundary precisions x verbs.
+func c04wObligs(tier string) []Oblig {
+	var obs []Oblig
+	type kv struct {
+		kind  int
+		verbs []int // indexes into c04wVerbs "dxobvcqUfegsXEGOt"
+	}
+	kvs := []kv{{3, []int{0, 1}}, {5, []int{0}}, {7, []int{8, 4}}, {0, []int{11, 6}}, {20, []int{4}}}
+	widths := []int{0, 3, 5, 7}
+	precs := []int{0, 2, 6}
+	if tier == "thorough" {
+		kvs = []kv{{3, []int{0, 1, 2, 3, 4, 5, 6, 7, 12, 15, 8}}, {5, []int{0, 1, 2, 3, 4, 12, 15}}, {49, []int{0, 1, 3, 4}}, {4, []int{0, 1, 5, 6, 7}}, {9, []int{0, 5, 6, 7, 4}}, {7, []int{8, 9, 10, 4, 1, 13, 14}}, {50, []int{8, 10, 4}}, {8, []int{8, 10, 4}},
+			{0, []int{11, 6, 1, 12, 4, 0}}, {1, []int{11, 6, 1, 4, 0}}, {20, []int{0, 1, 4, 11}}, {14, []int{4, 0, 11}}, {24, []int{4, 0}}, {6, []int{16, 4, 0}}, {10, []int{4, 0, 11}}, {27, []int{4, 11, 0}}, {31, []int{4, 11, 1}}, {45, []int{0, 1, 4}}}
+		widths = []int{0, 1, 2, 3, 4, 5, 6, 7, 8}
+		precs = []int{0, 1, 2, 3, 4, 5, 6, 7}
+	}
+	for _, x := range kvs {
+		for _, v := range x.verbs {
+			for mask := 0; mask < 32; mask++ {
+				for _, w := range widths {
+					for _, pr := range precs {
+						n := 0
+						if x.kind == 0 || x.kind == 1 || x.kind == 27 || x.kind == 31 || x.kind == 14 {
+							n = 1
+						}
+						obs = append(obs, Oblig{Harness: "H_c04w", Args: []int{x.kind, mask, w, pr, v, n}})
+					}
+				}
+			}
+		}
+	}
 	return obs
 }
 
@@ -434,17 +469,17 @@ func c02Obligs(tier string) []Oblig {
 	}
 	// two operands in one call, the first under a wrapper
 	for _, k1 := range []int{106, 114, 0, 14} {
-		for w1 := 0; w1 < 3; w1++ {
+		for w1 := 0; w1 < 7; w1++ {
 			for _, k2 := range []int{114, 106, 0} {
 				obs = append(obs, Oblig{Harness: "H_c02m", Args: []int{k1, w1, k2, 1}})
 			}
 		}
 	}
 	// an unrelated earlier call first (recycled printers, adversarial pool)
-	pres := []int{13, 5}
+	pres := []int{13, 5, 20, 17, 18}
 	pk := []int{0, 14, 103, 110}
 	if tier == "thorough" {
-		pres = []int{13, 14, 5, 6, 8}
+		pres = []int{13, 14, 5, 6, 8, 17, 18, 20, 21, 22, 23}
 		pk = []int{0, 3, 14, 27, 103, 106, 110}
 	}
 	for _, pre := range pres {
@@ -739,7 +774,7 @@ func c08Obligs(tier string) []Oblig {
 	}
 	for _, sh := range shapes {
 		for _, d := range c08Dirs {
-			for ck := 0; ck < 12; ck++ {
+			for ck := 0; ck < 15; ck++ {
 				if tier != "thorough" && sh != 3 && ck > 1 && d > 8 {
 					continue
 				}
@@ -771,7 +806,7 @@ func c11pObligs(tier string) []Oblig {
 	if tier == "thorough" {
 		n = 2
 	}
-	for k := 0; k < 9; k++ {
+	for k := 0; k < 13; k++ {
 		for d := 0; d < 9; d++ {
 			obs = append(obs, Oblig{Harness: "H_c11p", Args: []int{k, d, n}, PanicViol: true})
 		}
@@ -804,12 +839,17 @@ func c14Obligs(tier string) []Oblig {
 			}
 		}
 	}
-	ops := []int{0, 1, 2, 3, 4, 5, 6, 7}
+	ops := []int{0, 1, 2, 3, 4, 5, 6, 7, 11}
+	// + values with formatting methods: Stringer, nil-receiver Stringers,
+	// error, nil error pointer, GoStringer, Formatter, panicking methods
+	for _, vk := range []int{27, 28, 29, 30, 31, 32, 34, 35, 36, 37, 38, 39} {
+		ops = append(ops, 20+vk)
+	}
 	for _, k := range ops {
 		for _, w := range []int{0, 3} {
 			for _, p := range []int{0, 2} {
 				n := 1
-				if k != 0 && k != 4 && k != 5 && k != 9 {
+				if k < 20 && k != 0 && k != 4 && k != 5 && k != 9 {
 					n = 0
 				}
 				obs = append(obs, Oblig{Harness: "H_c14w", Args: []int{w, p, k, n}})
@@ -817,9 +857,16 @@ func c14Obligs(tier string) []Oblig {
 		}
 	}
 	if tier == "thorough" {
-		for k := 0; k < 11; k++ {
+		tk := []int{0, 1, 2, 3, 4, 5, 6, 7, 8, 9, 10, 11}
+		for vk := 10; vk < nFmtKinds; vk++ {
+			tk = append(tk, 20+vk)
+		}
+		for _, k := range tk {
 			for w := 0; w < 6; w++ {
 				for p := 0; p < 4; p++ {
+					if k >= 20 && (w == 1 || w == 4 || p == 3) {
+						continue
+					}
 					obs = append(obs, Oblig{Harness: "H_c14w", Args: []int{w, p, k, 1}})
 				}
 			}
@@ -936,17 +983,30 @@ func c17Obligs(tier string) []Oblig {
 				obs = append(obs, Oblig{Harness: "H_c17", Args: []int{ek, pos, 0, 1, 1, 0, pre}, PoolMode: 1})
 			}
 		}
+		// an earlier operand of the same call that panics / has a nil receiver
+		for po := 1; po <= 4; po++ {
+			for _, pos := range []int{0, 1, 2, 3, 7} {
+				for hp := 0; hp < 2; hp++ {
+					obs = append(obs, Oblig{Harness: "H_c17", Args: []int{ek, pos, 0, 1, 1, hp, 0, po}})
+				}
+			}
+		}
 	}
 	return obs
 }
 
 var nestCodes = []int{1, 2, 12, 21, 11, 22, 121, 212, 112, 221, 122, 211}
 
+// dirtyPreludes: c12History index + 1 of the earlier calls run before a
+// check's own call on an adversarial pool: nested printers under Safe /
+// Unsafe, panics out of nested printers (single and double), nested wrappers.
+var dirtyPreludes = []int{13, 14, 5, 6, 17, 18, 20, 22}
+
 func c06Obligs(tier string) []Oblig {
 	var obs []Oblig
 	kinds := []int{0, 3, 10, 14, 19, 21, 27, 31, 35, 36, 100, 101, 102, 103, 104, 105, 106, 107, 108, 110, 111, 112, 113}
 	dirs := []int{0, 1, 2, 3, 4, 5, 16, 19}
-	for _, pre := range []int{13, 14, 5, 6} {
+	for _, pre := range dirtyPreludes {
 		for _, code := range []int{1, 2} {
 			for _, k := range []int{0, 3, 14, 100, 106, 112} {
 				obs = append(obs, Oblig{Harness: "H_c06", Args: []int{code, k, 0, 1, pre}, PoolMode: 1})
@@ -985,14 +1045,14 @@ func c05Obligs(tier string) []Oblig {
 	if tier == "thorough" {
 		n = 3
 	}
-	for _, pre := range []int{13, 14, 5, 6} {
+	for _, pre := range dirtyPreludes {
 		for _, ls := range [][]int{{0, 2, 1}, {3, 0, 4}, {6, 1, 0}, {0, 0, 8}} {
 			for _, shape := range []int{0, 1, 4} {
 				obs = append(obs, Oblig{Harness: "H_c05", Args: []int{ls[0], ls[1], ls[2], shape, 0, 1, 0, pre}, PoolMode: 1})
 			}
 		}
 	}
-	for l1 := 0; l1 < 15; l1++ {
+	for l1 := 0; l1 < 16; l1++ {
 		for _, l2 := range []int{0, 2, 3, 5, 6, 10} {
 			for _, l3 := range []int{0, 1, 4} {
 				for shape := 0; shape < 5; shape++ {
@@ -1007,6 +1067,10 @@ func c05Obligs(tier string) []Oblig {
 						reg := 0
 						if l1 == 5 || l2 == 5 || l1 == 9 {
 							obs = append(obs, Oblig{Harness: "H_c05", Args: []int{l1, l2, l3, shape, fi, n, 1}})
+						}
+						if l1 == 15 || ((l1 == 5 || l1 == 9) && l2 == 0) {
+							// the POINTER type registered: exact-type matching
+							obs = append(obs, Oblig{Harness: "H_c05", Args: []int{l1, l2, l3, shape, fi, n, 2}})
 						}
 						if tier != "thorough" && shape > 0 && l3 != 0 {
 							continue
@@ -1023,18 +1087,18 @@ func c05Obligs(tier string) []Oblig {
 func c12Obligs(tier string) []Oblig {
 	var obs []Oblig
 	for probe := 0; probe < 10; probe++ {
-		for h := 0; h < 19; h++ {
+		for h := 0; h < 23; h++ {
 			if h == 14 && tier != "thorough" {
 				continue
 			}
 			obs = append(obs, Oblig{Harness: "H_c12", Args: []int{probe, 1, h}, PoolMode: 1})
 		}
 		if tier == "thorough" {
-			for h1 := 0; h1 < 19; h1++ {
+			for h1 := 0; h1 < 23; h1++ {
 				if h1 == 14 {
 					continue
 				}
-				for _, h2 := range []int{0, 4, 5, 7, 9, 12, 16} {
+				for _, h2 := range []int{0, 4, 5, 7, 9, 12, 16, 19} {
 					obs = append(obs, Oblig{Harness: "H_c12", Args: []int{probe, 1, h1, h2}, PoolMode: 1})
 				}
 			}
@@ -1051,7 +1115,7 @@ func simpleSpec(id string, obligs func(string) []Oblig, goals []string, bounds m
 func init() {
 	stubs := []string{"reflect emulated over go/types", "sync.Pool LIFO model", "stdlib fmt/strconv interpreted from source"}
 	simpleSpec("C08", c08Obligs, []string{"nonempty-redactable"},
-		map[string]interface{}{"redactables": "symbolic well-formed line-safe fragments: <=1 envelope and <=2 safe runs of ASCII bytes (9 shapes)", "directives": len(c08Dirs), "containers": 12, "compositions": "8 Sprint/Sprintf/Join/JoinTo variants x 15 shape pairs"},
+		map[string]interface{}{"redactables": "symbolic well-formed line-safe fragments: <=1 envelope and <=2 safe runs of ASCII bytes (9 shapes)", "directives": len(c08Dirs), "containers": 15, "compositions": "8 Sprint/Sprintf/Join/JoinTo variants x 15 shape pairs"},
 		[]string{"redactables are in the class C01/C03/C10 show the library produces: well-formed, line-safe, no truncated tail; content bytes ASCII"}, stubs, []string{"%T and %p (excluded by the property)", "non-ASCII content bytes", "deeper nesting"})
 	simpleSpec("C14", c14Obligs, []string{"bare-v"},
 		map[string]interface{}{"flags": "five symbolic booleans (all 32 subsets)", "widths": "absent,0,1,7,12,1000", "precisions": "absent,0,1,5", "verbs": "symbolic ASCII letter (except T p w) and 3 multi-byte runes", "wrapper_operands": "8 (11 thorough) basic kinds"},
@@ -1073,9 +1137,9 @@ func init() {
 		[]string{"unsafe payloads are LF-free and valid UTF-8", "the blanked operand is rendered as one leaf"}, stubs, []string{"bad verbs (C04)", "longer payloads"})
 	register(&CheckSpec{ID: "C12", Props: []string{"C12"}, Obligs: c12Obligs, Goals: []string{"ran", "probe-ran-on-recycled-printer"},
 		Bounds: func(tier string) map[string]interface{} {
-			return map[string]interface{}{"histories": "1 (2 thorough) prior calls from 16 dirtying kinds", "probes": 8, "pool": "adversarial sync.Pool model: Get returns any freed printer or a new one (all choices explored)", "payload": "1 symbolic byte in probe and history"}
+			return map[string]interface{}{"histories": "1 (2 thorough) prior calls from 22 dirtying kinds", "probes": 10, "pool": "adversarial sync.Pool model: Get returns any freed printer or a new one (all choices explored)", "payload": "1 symbolic byte in probe and history", "ownership": "on every path: no load/store/append/copy through memory of a printer (fields, nested structs, first 1024 cells of its buffers) between its Put and its next Get; no store to a package-level variable of the library (or update of a map it holds) outside Register*/init"}
 		},
-		Assume:  []string{"SCHEDULES AND DATA RACES ARE NOT DECIDED: the executor is sequential; only the history half of the property is checked"},
-		Stubs:   []string{"sync.Pool: adversarial model", "reflect emulated"},
-		Outside: []string{"goroutine interleavings, data-race freedom", "histories longer than 2"}})
+		Assume:  []string{"INTERLEAVINGS ARE NOT EXPLORED: the executor is sequential. The concurrency half is decided only through a sequential sufficient condition for race freedom between calls on distinct destinations: calls share no memory but pooled printers and library globals, so a call that touches a printer only between its own Get and Put and writes no library global cannot race with another call. A reported breach is confirmed natively by running the path's vector in 8 goroutines x 200 under the race detector."},
+		Stubs:   []string{"sync.Pool: adversarial model with ownership tracking", "reflect emulated"},
+		Outside: []string{"goroutine interleavings as such", "races through memory owned by the caller's operands", "races inside the standard library", "histories longer than 2"}})
 }
